@@ -300,13 +300,13 @@
     }
 @@ LogInnerManager::write before_return 3
     proof {
-        assert(write_data_step(o, *self, body));
-        lemma_write_wf(o, *self, body);
+        assert(write_data_step(o, *self, body));   // @C02
+        lemma_write_wf(o, *self, body);   // @C02
     }
 @@ LogInnerManager::write before_tail
     proof {
-        assert(write_data_step(o, *self, body));
-        lemma_write_wf(o, *self, body);
+        assert(write_data_step(o, *self, body));   // @C02
+        lemma_write_wf(o, *self, body);   // @C02
     }
 @@ LogInnerManager::strip_log_to foriter 1 it
 @@ LogInnerManager::strip_log_to spec
